@@ -204,6 +204,9 @@ class Controller:
             # adapt tolerances to time step
             stepper_atol = 1e-6 * dt  # control loop termination and min advance
             tracker_atol = 0.5 * dt  # allow firing within half a step of the interrupt
+            if self.diagnostics["solver"].get("dt_adaptive"):
+                # adaptive steppers reach interrupts exactly (and `dt` can be large)
+                tracker_atol = stepper_atol
 
         # evolve the system from t_start to t_end
         t = t_start
@@ -231,6 +234,8 @@ class Controller:
                 if dt := self.diagnostics["solver"].get("dt"):
                     stepper_atol = 1e-6 * dt
                     tracker_atol = 0.5 * dt
+                    if self.diagnostics["solver"].get("dt_adaptive"):
+                        tracker_atol = stepper_atol
 
         except StopIteration as err:
             # iteration has been interrupted by a tracker
